@@ -199,6 +199,19 @@ Theorem C16_iterator_order_once : forall nx order it1 it2 idx,
 Proof. exact iter_order_injective. Qed.
 Print Assumptions C16_iterator_order_once.
 
+(* ------------------------------------------------------------------ sessions *)
+(* the model's answer to a query is independent of the queries made before on the same object: in any session
+   (any initial state, any queries before and after) the answer to q is the answer q gets alone.  The session
+   correspondence (one C++ object, random interleaved queries) ties the implementation to this. *)
+Theorem C16_query_history_independent : forall g st pre q post,
+  nth (length pre) (run_session g st (pre ++ q :: post)) (AZ 0) = eval_query g q /\
+  run_session g [] [q] = [eval_query g q].
+Proof. exact query_history_independent. Qed.
+Print Assumptions C16_query_history_independent.
+Theorem C16_session_answers : forall g qs st, run_session g st qs = map (eval_query g) qs.
+Proof. exact run_session_map. Qed.
+Print Assumptions C16_session_answers.
+
 (* the boolean orthogonality test used by the examples is sound *)
 Theorem C16_orthogonal_test : forall n M, orthogonal_b n M = true -> orthogonal n M.
 Proof. exact orthogonal_b_spec. Qed.
